@@ -38,7 +38,7 @@ def _free_symbol_error(e):
 
 def judge(job):
     key, on, eve = job
-    spec = S.Spec(*key)
+    spec = S.make_spec(key)
     text = spec.model().text()
     options = S.options_of(set(on), eve)
     case = {"spec": spec.key(), "on": list(on), "eve": eve, "text": text}
@@ -82,6 +82,7 @@ def judge(job):
         allvals = dict(vals)
         allvals.update(rec)
         S.residual_at(model, {c: 0.5 for c in S.coords(model)}, allvals)
+        S.residual_at(model, {c: 0.5 for c in S.coords(model)}, allvals, initial=True)
     except Exception as e:  # noqa: BLE001
         viol("residual-unevaluable:" + type(e).__name__, "the DAE residual cannot be evaluated from the model's variables: %s" % str(e)[:300])
     return res
@@ -94,7 +95,7 @@ def run(ctx):
 
 
 def replay(case):
-    r = judge(((tuple(case["spec"][0]), tuple(case["spec"][1]), case["spec"][2], tuple(case["spec"][3])), tuple(case["on"]), case["eve"]))
+    r = judge((case["spec"], tuple(case["on"]), case["eve"]))
     print(case["text"])
     print(r["outcome"], [m.split("\n")[0] for _, m, _ in r["viol"]] or "ok")
     return not r["viol"]
